@@ -159,6 +159,8 @@ type Engine struct {
 	inconclusive                 []string
 	sleepDur                     map[int]string // clock reading index -> vf.Sleep duration preceding it
 	curFn                        string
+	fs                           []*fsEntry
+	joins                        map[string]joinPart
 	inHarness                    bool
 	clockBudget                  string
 	appendSpare                  int
@@ -173,6 +175,7 @@ func (e *Engine) resetPath(prefix []decision) {
 	e.prefix, e.decisions, e.pending, e.fresh, e.clockN, e.occ, e.Inputs = prefix, nil, nil, 0, 0, nil, nil
 	e.forkCount = 0
 	e.clockBudget, e.appendSpare = "", 0
+	e.fs, e.joins = nil, map[string]joinPart{}
 	globals = map[*ssa.Global]Ptr{}
 	allocEpoch, epochCtr, frozenAt = map[*any]int{}, 0, -1
 	msgOf, tsOf = map[string]*msgProv{}, map[*any]TimeV{}
@@ -673,7 +676,7 @@ func (e *Engine) global(g *ssa.Global) Ptr {
 }
 
 func (e *Engine) call(fn *ssa.Function, args []any, bind []any) any {
-	for _, st := range [](func(*ssa.Function, []any) (any, bool)){e.stub9, e.stub8, e.stub7, e.stub6, e.stub5, e.stub4, e.stub3, e.stub2, e.stub} {
+	for _, st := range [](func(*ssa.Function, []any) (any, bool)){e.stubOS, e.stub9, e.stub8, e.stub7, e.stub6, e.stub5, e.stub4, e.stub3, e.stub2, e.stub} {
 		if r, ok := st(fn, args); ok {
 			if fn.Name() != "init" && !(fn.Pkg != nil && strings.HasSuffix(fn.Pkg.Pkg.Path(), "/zzverif/vf")) {
 				e.models[fn.String()] = true
